@@ -25,6 +25,7 @@ def numba_cache_for_tree():
     base = os.path.join(core.VERIF, ".scratch", "numba_cache")
     os.makedirs(base, exist_ok=True)
     d = os.path.join(base, h.hexdigest()[:16])
+    os.environ["VERIF_NUMBA_FRESH"] = "0" if os.path.isdir(d) and len(os.listdir(d)) > 3 else "1"
     if not os.path.isdir(d):
         import shutil
         olds = sorted((os.path.join(base, x) for x in os.listdir(base)), key=os.path.getmtime)
